@@ -23,7 +23,7 @@ func init() {
 			"source fixed to @world (or @a under send-all) so that what is distributed is exactly the amount sent",
 			"portion vectors restricted to those the statement defines (sum == 1, or <= 1 with `remaining`)",
 		},
-		QuickBudget: 70 * time.Second,
+		QuickBudget: 240 * time.Second,
 		ThoroBudget: 12 * time.Minute,
 		Run:         runC05,
 	})
